@@ -15,6 +15,8 @@ noncomputable instance instTrigReal : Trig ℝ := ⟨Real.sin, Real.cos, Real.ar
 
 namespace Rot
 
+@[simp] theorem nz_real (x : ℝ) : nz x = x := by unfold nz; ring
+
 /-- conjugated rotation with abstract cos/sin values -/
 def conj (cg sg cb sb ct st : ℝ) (v : V3 ℝ) : V3 ℝ :=
   let w1 : V3 ℝ := ⟨cg*v.x - sg*v.y, sg*v.x + cg*v.y, v.z⟩
@@ -100,6 +102,7 @@ theorem rotate_unfold_yx (θ : ℝ) (a v : V3 ℝ) (hy : a.y ≠ 0) (γ β : ℝ
     (h1 : (rotZ γ a).x ≠ 0) (hβ : β = betaOf (rotZ γ a)) :
     rotateAround θ a v = conj (Real.cos γ) (Real.sin γ) (Real.cos β) (Real.sin β) (Real.cos θ) (Real.sin θ) v := by
   unfold rotateAround
+  simp only [nz_real]
   simp only [ne_eq, hy, not_false_eq_true, if_true]
   rw [← hγ]
   simp only [ne_eq] at h1
@@ -116,7 +119,7 @@ noncomputable def unit (a : V3 ℝ) : V3 ℝ := ⟨a.x / nrm a, a.y / nrm a, a.z
 
 theorem betaOf_ne (a1 : V3 ℝ) (h : a1.x ≠ 0) :
     betaOf a1 = -a1.x / |a1.x| * Real.arccos (a1.z / Real.sqrt (a1.x*a1.x + a1.z*a1.z)) := by
-  unfold betaOf; simp only [ne_eq, h, not_false_eq_true, if_true]; rfl
+  unfold betaOf; simp only [nz_real, ne_eq, h, not_false_eq_true, if_true]; rfl
 
 theorem rotate_caseA (θ : ℝ) (a v : V3 ℝ) (hy : a.y ≠ 0) (hx : a.x ≠ 0) :
     rotateAround θ a v = rodK (Real.cos θ) (Real.sin θ) (unit a) v := by
@@ -126,7 +129,7 @@ theorem rotate_caseA (θ : ℝ) (a v : V3 ℝ) (hy : a.y ≠ 0) (hx : a.x ≠ 0)
   obtain ⟨r, hr_def⟩ : ∃ r, r = Real.sqrt (x*x + y*y) := ⟨_, rfl⟩
   obtain ⟨γ, hγ⟩ : ∃ γ, γ = -x / |x| * Real.arcsin (y / Real.sqrt (x*x + y*y)) := ⟨_, rfl⟩
   have hγ' : γ = gammaOf (⟨x, y, z⟩ : V3 ℝ) := by
-    rw [hγ]; unfold gammaOf; simp only [ne_eq, hy, hx, not_false_eq_true, if_true]; rfl
+    rw [hγ]; unfold gammaOf; simp only [nz_real, ne_eq, hy, hx, not_false_eq_true, if_true]; rfl
   rw [← hγ] at hcg hsg; rw [← hr_def] at hcg hsg
   have hr2 : 0 < x*x + y*y := by have := mul_self_pos.mpr hx; nlinarith [mul_self_nonneg y]
   have hr : 0 < r := by rw [hr_def]; exact Real.sqrt_pos.mpr hr2
@@ -166,7 +169,7 @@ theorem rotate_caseB (θ : ℝ) (a v : V3 ℝ) (hy : a.y ≠ 0) (hx : a.x = 0) :
   simp only at hy hx
   subst hx
   have hγ' : Real.pi / 2 = gammaOf (⟨0, y, z⟩ : V3 ℝ) := by
-    unfold gammaOf; simp only [ne_eq, hy, not_false_eq_true, if_true, not_true_eq_false, if_false]; rfl
+    unfold gammaOf; simp only [nz_real, ne_eq, hy, not_false_eq_true, if_true, not_true_eq_false, if_false]; rfl
   have ha1x : (rotZ (Real.pi / 2) (⟨0, y, z⟩ : V3 ℝ)).x = -y := by
     simp [rotZ, Trig.cos, Trig.sin]
   have ha1z : (rotZ (Real.pi / 2) (⟨0, y, z⟩ : V3 ℝ)).z = z := rfl
@@ -196,6 +199,7 @@ theorem rotate_caseC (θ : ℝ) (a v : V3 ℝ) (hy : a.y = 0) (hx : a.x ≠ 0) :
   have hunf : rotateAround θ ⟨x, 0, z⟩ v =
       conj 1 0 (Real.cos β) (Real.sin β) (Real.cos θ) (Real.sin θ) v := by
     unfold rotateAround
+    simp only [nz_real]
     simp only [ne_eq, not_true_eq_false, if_false, hx, not_false_eq_true, if_true, hg0]
     rw [← hβ]
     obtain ⟨vx, vy, vz⟩ := v
@@ -223,9 +227,10 @@ theorem rotate_caseD (θ : ℝ) (a v : V3 ℝ) (hy : a.y = 0) (hx : a.x = 0) (hz
     unfold nrm; simp only [mul_zero, zero_add]; exact Real.sqrt_mul_self hz.le
   have hg0 : gammaOf (⟨0, 0, z⟩ : V3 ℝ) = 0 := by unfold gammaOf; simp
   have hb0 : betaOf (⟨0, 0, z⟩ : V3 ℝ) = 0 := by
-    unfold betaOf; simp only [ne_eq, not_true_eq_false, if_false, not_lt.mpr hz.le]
+    unfold betaOf; simp only [nz_real, ne_eq, not_true_eq_false, if_false, not_lt.mpr hz.le]
   obtain ⟨vx, vy, vz⟩ := v
   unfold rotateAround
+  simp only [nz_real]
   simp only [ne_eq, not_true_eq_false, if_false, hg0, hb0, not_lt.mpr hz.le]
   simp only [rotZ, rotY, rodK, unit, hn, Trig.sin, Trig.cos, Real.cos_neg, Real.sin_neg, neg_zero, Real.cos_zero,
     Real.sin_zero, zero_div, div_self hz.ne', V3.mk.injEq]
@@ -242,10 +247,11 @@ theorem rotate_caseE (θ : ℝ) (a v : V3 ℝ) (hy : a.y = 0) (hx : a.x = 0) (hz
     rw [show z * z = (-z) * (-z) by ring]; exact Real.sqrt_mul_self (by linarith)
   have hg0 : gammaOf (⟨0, 0, z⟩ : V3 ℝ) = 0 := by unfold gammaOf; simp
   have hb0 : betaOf (⟨0, 0, z⟩ : V3 ℝ) = Real.pi := by
-    unfold betaOf; simp only [ne_eq, not_true_eq_false, if_false, hz, if_true]; rfl
+    unfold betaOf; simp only [nz_real, ne_eq, not_true_eq_false, if_false, hz, if_true]; rfl
   have hzn : z / -z = -1 := by rw [div_neg, div_self hz.ne]
   obtain ⟨vx, vy, vz⟩ := v
   unfold rotateAround
+  simp only [nz_real]
   simp only [ne_eq, not_true_eq_false, if_false, hg0, hb0, hz, if_true]
   simp only [rotZ, rotY, rodK, unit, hn, hzn, Trig.sin, Trig.cos, Real.cos_neg, Real.sin_neg, neg_zero, Real.cos_zero,
     Real.sin_zero, Real.cos_pi, Real.sin_pi, zero_div, V3.mk.injEq]
